@@ -13,7 +13,7 @@ NF = 3
 
 def all_cases(tier):
     out = []
-    for ep, nb, vb, ev, cb, init in itertools.product((0, 1, 2, 3), (1, 2, 3), (None, 1, 2), (None, "binary", "multi-class", "categorical"),
+    for ep, nb, vb, ev, cb, init in itertools.product((0, 1, 2, 3), (1, 2, 3), (None, 1, 2), (None, "binary", "multi-class", "categorical", "multi-class+callbacks"),
                                                        (False, True, "flip"), ("train", "eval", "train+bn_eval", "eval+dropout_train")):
         out.append({"epochs": ep, "train_batches": nb, "val_batches": vb, "evaluator": ev, "callbacks": cb, "initial_mode": init})
     return out
@@ -32,6 +32,8 @@ def judge(case):
     from synapgrad.nn.utils import data as D, train as TR
     harness.reset_modes(verify=False)
     ev_mode = case["evaluator"]; epochs = case["epochs"]
+    ev_cb = bool(ev_mode) and ev_mode.endswith("+callbacks")
+    if ev_cb: ev_mode = ev_mode.split("+")[0]
     viol = []
     def v(sym, detail):
         if all(x["kind"] != sym for x in viol): viol.append({"kind": sym, "detail": detail})
@@ -86,7 +88,12 @@ def judge(case):
     val_loader = None
     if case["val_batches"]:
         Xv, yv = _data(case["val_batches"], ev_mode, 2); val_loader = D.DataLoader(Xv, yv, BATCH, transform=ToT())
-    evaluator = None if ev_mode is None else TR.Evaluator(mode=ev_mode)
+    if ev_mode is None: evaluator = None
+    elif ev_cb:
+        # user metrics: per-epoch and per-step callbacks returning (name, value) pairs
+        evaluator = TR.Evaluator(mode=ev_mode, epoch_callback=lambda yt_, yp_: [("n_seen", np.float64(len(yt_)))],
+                                 step_callback=lambda yt_, yp_: [("n_step", np.float64(len(yt_)))])
+    else: evaluator = TR.Evaluator(mode=ev_mode)
     tr = TR.Trainer(model, sg)
     tr.compile(crit, opt, evaluator)
     cbs = {}
@@ -165,7 +172,8 @@ def judge(case):
             if sum(1 for t in trace if t[0] == "cb_val") != (epochs if vb else 0): v("callback-count", "on_validation_epoch not called once per epoch")
         # ---- history
         keys = {"loss"} | ({"accuracy"} if ev_mode else set())
-        if vb: keys |= {"val_loss"} | ({"val_accuracy"} if ev_mode else set())
+        if ev_cb: keys |= {"n_seen"}
+        if vb: keys |= {"val_loss"} | ({"val_accuracy"} if ev_mode else set()) | ({"val_n_seen"} if ev_cb else set())
         if epochs == 0: keys = set()
         if set(hist.keys()) != keys: v("history-keys", f"history keys {sorted(hist.keys())}, expected {sorted(keys)}")
         for k in keys & set(hist.keys()):
@@ -175,6 +183,11 @@ def judge(case):
             if ev_mode == "binary": return float(np.mean((o.reshape(len(o), -1)[:, 0] > 0.5).astype(int) == l.astype(int)))
             if ev_mode == "multi-class": return float(np.mean(np.argmax(o, 1) == l.astype(int)))
             return float(np.mean(np.argmax(o, 1) == np.argmax(l, 1)))
+        if ev_cb and epochs > 0 and not any(x["kind"].startswith("history") for x in viol):
+            if [float(x) for x in hist["n_seen"]] != [float(nb * BATCH)] * epochs:
+                v("history-user-metric", f"history['n_seen'] = {list(hist['n_seen'])}, expected {nb * BATCH} per epoch")
+            if vb and [float(x) for x in hist["val_n_seen"]] != [float(vb * BATCH)] * epochs:
+                v("history-user-metric", f"history['val_n_seen'] = {list(hist['val_n_seen'])}, expected {vb * BATCH} per epoch")
         if ok and not any(x["kind"].startswith("history") for x in viol):
             for ep, (tl, to_, tlab, vl, vo, vlab) in enumerate(per_epoch):
                 if abs(float(hist["loss"][ep]) - float(np.mean(tl))) > 1e-5 * max(1, abs(np.mean(tl))):
@@ -223,7 +236,7 @@ def run(tier, seed):
     cov = {"states": r["evaluations"], "transitions": ntrans, "traces_validated_against_impl": r["evaluations"],
            "evaluations": r["evaluations"], "distinct_nontrivial": r["distinct_nontrivial"], "samples": r["samples"], "exhaustive": True,
            "rule": "epochs {0,1,2,3} x train batches {1,2,3} x validation loader {None,1,2 batches} x evaluator {None, binary, multi-class, "
-                   "categorical} (matching head/loss) x callbacks {none, both, both and leaving the model in the opposite mode} x initial model mode {train, eval, train with BatchNorm switched to eval, eval with Dropout switched to train}; model = Linear+BatchNorm1d+"
+                   "categorical, multi-class with user epoch/step callbacks} (matching head/loss) x callbacks {none, both, both and leaving the model in the opposite mode} x initial model mode {train, eval, train with BatchNorm switched to eval, eval with Dropout switched to train}; model = Linear+BatchNorm1d+"
                    "Dropout+Linear; every optimizer.zero_grad/step, model.forward, criterion and backward call is recorded with model.training "
                    "(all submodules) and the probed grad mode and matched against the automaton (forward, loss, zero_grad, backward, step)* "
                    "per batch, eval/no-grad/no-state-change validation, history keys and lengths, epoch loss = mean of batch losses, accuracy "
